@@ -258,7 +258,7 @@ def run_shard(shard, tier):
                     'violations': [common.library_exception(ID, case.ident(), e)]}
     both = shard[0] != 'P'
     res = e1.run_shard_generic(shard, tier, ID, check_case, both_labelings=both,
-                                variants=('truthy-cells',))
+                                variants=('truthy-cells', 'used'))
     if shard[0] == 'S' and shard[1] * shard[2] <= 9:
         ctr = collections.Counter()
         for n, m, rows, tag in space.tables_of_shard(shard):
